@@ -55,7 +55,7 @@ package planner
 // can drop, regroup or reorder rows: one clause, no GROUP BY, no HAVING, no ORDER BY. Both call
 // sites of simpleFetch carry the obligation. (The bodies are otherwise outside the subset - they
 // fan out to goroutines - so everything else is havoced: opt modifies-everything.)
-//@ props C12 C13 C11 C08
+//@ props C12 C13 C11 C08 C10 C03
 //@ func (p *queryPlan) processClause
 //@   opt modifies-everything
 //@   opt obligations assert
@@ -70,6 +70,7 @@ package planner
 //@   opt modifies-everything
 //@   ensures[table-or-error] (result0 != nil && result1 == nil) || (result0 == nil && result1 != nil)
 //@   ensures[own-table] result0 != nil ==> result0.#lock_mu == 0
+//@   ensures[existing-rows-untouched] forall m table.Row, k string :: {has(m, k)} {old(has(m, k))} old(allocated(m)) ==> has(m, k) == old(has(m, k)) && m[k] == old(m[k])
 
 // addSpecifiedData, the part after the fetch (C10): for an OPTIONAL clause the row it was called for
 // is never lost - some row of the table extends it when the call succeeds.
@@ -182,7 +183,8 @@ package planner
 //@   ensures[no-object-id-no-row] cls.OIDAlias != "" && t.o.n == nil && t.o.p == nil ==> result0 == nil
 //@   ensures[subject-object-same-name-must-agree] cls.SBinding != "" && cls.SBinding == cls.OBinding && (t.o.n == nil || !sameNode(t.s, t.o.n)) ==> result0 == nil
 //@   ensures[subject-predicate-same-name-never-agree] cls.SBinding != "" && cls.SBinding == cls.PBinding ==> result0 == nil
-//@   ensures[predicate-object-same-name-must-agree] cls.PBinding != "" && cls.PBinding == cls.OBinding && (t.o.p == nil || t.o.p.id != t.p.id) ==> result0 == nil
+//@   ensures[predicate-object-same-name-object-must-be-predicate] cls.PBinding != "" && cls.PBinding == cls.OBinding && t.o.p == nil ==> result0 == nil
+//@   ensures[predicate-object-same-name-ids-must-agree] cls.PBinding != "" && cls.PBinding == cls.OBinding && t.o.p != nil && t.o.p.id != t.p.id ==> result0 == nil
 
 // getBoundValueForComponent: the value a row gives to a component through its binding or alias -
 // one of the row's cells under one of the given names, or nothing; with a single name present it is
